@@ -119,3 +119,36 @@ def rule_owed(prog):
                          "this states.retain drops State::%s without passing it through State::release: %s, so dropping the state "
                          "loses that release and the output stays on" % (v, OWED[v]))
     return res
+
+
+def rule_retain_all(prog):
+    """R-RELEASE-ALL (C01, C04): a release predicate is applied to *every* state.
+
+    State::release / release_state / seq_release answer "does this state survive the release". They are meant for
+    `states.retain(..)`: all states that match are removed (the same key or layer can be held by two physical keys, a
+    coordinate can own several states). Handing such a predicate to `position` / `find` / `any` and removing one element
+    leaves the other matching states behind: the layer stays active, the key stays down."""
+    res = RuleResult("R-RELEASE-ALL", "State release predicates are only used with retain (all matching states go)", floor=8)
+    PRED = ("kanata_keyberon::layout::State::release", "kanata_keyberon::layout::State::release_state", "kanata_keyberon::layout::State::seq_release")
+    for f in list(prog.fns.values()):
+        if not f.crate.startswith("kanata") or f.derive:
+            continue
+        n = 0
+        for bi, t in f.calls():
+            for a in t["args"][1:]:
+                c = closure_arg(prog, f, a) if isinstance(a, dict) and "l" in a else None
+                if c is None or not any((callee_name(t2) or "") in PRED for _, t2 in c.calls()):
+                    continue
+                meth = (callee_name(t) or "").split("::")[-1]
+                ok = meth in ("retain", "retain_mut")
+                key = "%s/%s%s" % (f.norm, meth, "#%d" % n if n else "")
+                n += 1
+                res.fn(f)
+                res.inst(key, where="%s:%s" % (f.file, t.get("ln")), ok=ok)
+                res.oblige(ok)
+                if not ok:
+                    res.viol(key, "%s:%s" % (f.file, t.get("ln")),
+                             "a State release predicate is passed to %s() instead of retain(): only the first matching state is dealt with, "
+                             "further states that the same release should remove (the same layer or key held by a second physical key) "
+                             "stay active" % meth)
+    return res
